@@ -1,25 +1,96 @@
+"""C13 -- translated responses and streams are well-formed Anthropic and lose nothing
+(spec/AnthropicStream*.tla, harness/anthropic/stream_test.go)."""
+
+
+def _set(*xs):
+    return "{" + ", ".join('"%s"' % x if isinstance(x, str) else str(x) for x in xs) + "}"
+
+
+_FINS = _set("stop", "length", "tool_calls", "none")
+_USAGES = _set("none", "fin", "own", "nochoices")
+_CHUNKS = _set("all", "event", "line", "byte", "n7", "n64", "n1000")
+_NOISES = _set("none", "comment", "crlf", "azure", "nodone")
+_CLASSES = _set("ascii", "uni", "empty", "big")
+_MALS = _set("nonjson", "jsonarr", "jsonnull", "wrongtype", "choicesobj", "choicenum", "contentnum", "toolstr",
+             "toolmix", "orphan", "negidx", "usagebad", "binary", "nospace", "eventline", "eof", "readerr")
+_BOTH2 = "{FALSE, TRUE}"
+
+
 def _g(**kw):
-    p = {"MinItems": 0, "MaxItems": 2, "Classes": '{"ascii"}', "NFs": "{1}", "Hdrs": '{"sep"}',
-         "Fins": '{"stop"}', "FinPoss": '{"own"}', "Usages": '{"fin"}', "Chunks": '{"event"}',
-         "Noises": '{"none"}', "Boths": "{FALSE}", "Mals": '{"none"}', "MalPoss": "{0}", "Arbs": "{FALSE}"}
+    """parameters for AnthropicStream_gen.cfg with defaults (one value per dimension)"""
+    p = {"MinItems": 0, "MaxItems": 2, "Classes": _set("ascii"), "NFs": "{1}", "Hdrs": _set("sep"),
+         "Fins": _set("stop"), "FinPoss": _set("own"), "Usages": _set("fin"), "Chunks": _set("event"),
+         "Noises": _set("none"), "Boths": "{FALSE}", "Mals": _set("none"), "MalPoss": "{0}", "Arbs": "{FALSE}"}
     p.update(kw)
     return {"module": "AnthropicStreamGen", "cfg": "AnthropicStream_gen.cfg", "params": p}
+
+
+# ---- quick: one focused grid per dimension of the quantifier (about 5 k streams)
+_Q = [
+    # every completion shape up to 3 items x delta fragmentation x header style, per event and per byte
+    _g(MaxItems=3, NFs="{1, 2}", Hdrs=_set("sep", "joined"), Fins=_set("stop", "tool_calls"), Chunks=_set("event", "byte")),
+    # the 16 shapes of length 4 (0..4 tool calls)
+    _g(MinItems=4, MaxItems=4, NFs="{2}", Hdrs=_set("sep", "joined")),
+    # finish reason x where it travels x where usage travels
+    _g(Fins=_FINS, FinPoss=_set("own", "last"), Usages=_USAGES),
+    # content classes x every chunking of the bytes x legal SSE noise
+    _g(NFs="{1, 3}", Classes=_CLASSES, Chunks=_CHUNKS, Noises=_NOISES),
+    # delta with content AND tool_calls
+    _g(MinItems=2, MaxItems=3, NFs="{1, 2}", Hdrs=_set("sep", "joined"), Boths="{TRUE}"),
+    # malformed lines at every position (no-crash / no-hang clause)
+    _g(NFs="{2}", Mals=_MALS, MalPoss="{0, 1, 2, 3, 5, 8}", Chunks=_set("line", "n7")),
+    # arbitrarily interleaved tool-call fragments (no-crash / no-hang clause)
+    _g(MinItems=2, MaxItems=4, NFs="{2, 3}", Hdrs=_set("sep", "joined"), Arbs="{TRUE}", Chunks=_set("event", "byte")),
+]
+
+# ---- thorough: the products of those dimensions (sampled to 80 k streams, seed = VERIF_SEED)
+_T = [
+    _g(MaxItems=4, NFs="{1, 2, 3}", Hdrs=_set("sep", "joined"), Fins=_FINS, FinPoss=_set("own", "last"), Usages=_USAGES,
+       Classes=_set("ascii", "uni"), Chunks=_set("event", "byte", "n7"), Boths=_BOTH2),
+    _g(MaxItems=3, NFs="{1, 2, 3}", Hdrs=_set("sep", "joined"), Classes=_CLASSES, Chunks=_CHUNKS, Noises=_NOISES,
+       Fins=_set("stop", "none"), FinPoss=_set("own", "last"), Usages=_set("fin", "own")),
+    _g(MaxItems=3, NFs="{1, 2}", Hdrs=_set("sep", "joined"), Classes=_set("ascii", "uni"), Mals=_MALS,
+       MalPoss="{0, 1, 2, 3, 4, 5, 6, 7, 8, 10, 12}", Chunks=_set("all", "line", "byte", "n7")),
+    _g(MinItems=2, MaxItems=4, NFs="{2, 3}", Hdrs=_set("sep", "joined"), Arbs="{TRUE}", Classes=_set("ascii", "uni", "empty"),
+       Chunks=_set("event", "byte", "n64"), Fins=_FINS, Usages=_set("none", "fin", "nochoices")),
+] + _Q
+
+
+def _nontrivial(s):
+    """a scenario is non-trivial if the completion has at least two items, or the input is not a
+    well-formed rendering (malformed line / interleaved fragments)"""
+    return len(s["shape"]) >= 2 or not s["strict"]
 
 
 def register(PROPS, HARNESS_PKGS):
     HARNESS_PKGS["anthropic"] = "internal/adapter/translator/anthropic"
     PROPS["C13"] = {
-        "rule": "tbd",
+        "rule": "TLC enumerates the input side: completions (every sequence of <= 4 text / tool-call items incl. empty, "
+                "0..4 tool calls, text after tools) x content class (ascii, multi-byte+escapes, empty, > 64 KiB) x number "
+                "of OpenAI deltas per item (1..3, tool fragments contiguous) x tool header style x finish reason (stop, "
+                "length, tool_calls, absent) and where it travels x usage (absent, on the finish chunk, own chunk, "
+                "empty-choices chunk) x read sizes of the byte stream (1 byte, 7, 64, 1000, per line, per event, all at "
+                "once) x legal SSE noise (comments, CRLF, leading empty-choices chunk, no [DONE]) x delta with content "
+                "and tool_calls, plus 17 kinds of malformed line at every position and interleaved tool fragments. Each "
+                "scenario is rendered to bytes, piped into the real TransformStreamingResponse in those read sizes and "
+                "the same completion is given to TransformResponse; the written SSE is tokenised and TLC validates the "
+                "event sequence against the AnthropicStream grammar recogniser with content, stop-reason, usage and "
+                "streamed-vs-buffered agreement. Non-trivial = completion of >= 2 items, or malformed/interleaved input.",
         "exhaustive": False,
-        "assumptions": [],
+        "assumptions": ["tool-call arguments are canonical JSON objects (compact, sorted keys), so that the streamed "
+                        "partial_json concatenation and the buffered parsed input can be compared as strings",
+                        "for malformed / arbitrarily interleaved input only 'returns, no panic, no hang (30 s watchdog)' "
+                        "is demanded, as the property states",
+                        "the relative order of text and tool calls and the split of text over text blocks are not "
+                        "constrained (the buffered OpenAI form cannot express them)"],
         "parts": [{
             "name": "stream",
             "harness_dirs": ["anthropic"],
             "mc": [{"module": "AnthropicStream", "cfg": "AnthropicStream_mc.cfg"}],
-            "quick": {"gen": [_g(MaxItems=3, NFs="{1, 2}", Hdrs='{"sep", "joined"}')]},
-            "thorough": {"gen": [_g(MaxItems=3, NFs="{1, 2}", Hdrs='{"sep", "joined"}')]},
+            "quick": {"gen": _Q},
+            "thorough": {"gen": _T, "sample": 80000},
             "pkg": "internal/adapter/translator/anthropic", "test": "TestVerif_AnthropicStream",
             "trace": {"module": "AnthropicStreamTrace", "cfg": "AnthropicStream_trace.cfg"},
-            "nontrivial": lambda s: len(s["shape"]) >= 2 or not s["strict"],
+            "nontrivial": _nontrivial,
         }],
     }
